@@ -345,9 +345,28 @@ fn run_shard(ctx: &Ctx, shard: u64, nshards: u64) -> Report {
             // mutations
             let body_start = ver.len() + hdr.len();
             let sb: Vec<char> = s.chars().collect();
-            for m in 0..8 {
+            for m in 0..11 {
                 let mut t = sb.clone();
                 let origin = match m {
+                    8 if body_start > 1 => {
+                        // one character of the header removed (a truncated kind or version)
+                        let i = g.below(body_start as u64) as usize;
+                        t.remove(i.min(t.len() - 1));
+                        "mut-header-char-removed"
+                    }
+                    9 => {
+                        // a dot of the header doubled
+                        if let Some(i) = t.iter().take(body_start).rposition(|c| *c == '.') {
+                            t.insert(i, '.');
+                        }
+                        "mut-header-dot-doubled"
+                    }
+                    10 => {
+                        // the whole kind removed: version, then the data
+                        let vlen = ver.len();
+                        t.drain(vlen..body_start.saturating_sub(1).max(vlen));
+                        "mut-kind-removed"
+                    }
                     0 => {
                         t.push('=');
                         "mut-pad"
